@@ -50,9 +50,9 @@ prop(
 
 prop(
     "C16",
-    ["DivanModel.Props.C16", "DivanModel.Props.C16Tree"],
+    ["DivanModel.Props.C16", "DivanModel.Props.C16Tree", "DivanModel.Props.C16Order"],
     [lab("sort", 4000, 150000), lab("reg", 1000, 30000)],
-    level_text="Theorems on all byte strings: natural_cmp is a total preorder (reflexive, antisymmetric via swap, transitive) and digit runs compare by numeric value; argument names denoting integers are ordered by value; a strict comparator admits exactly one sorted permutation (so Rust's sort algorithm cannot matter) and --sortr is its exact reverse; sorting permutes. Tied to the code by the `sort` lab: pairs/triples through the real natural_cmp (laws re-evaluated on the implementation's own answers), comparator and sort_by over argument-name lists (ints, negatives, floats, text, mixed) x 3 attributes x 2 directions against the unique model order.",
+    level_text="Theorems on all byte strings: natural_cmp is a total preorder (reflexive, antisymmetric via swap, transitive) and digit runs compare by numeric value; argument names denoting integers are ordered by value; a strict comparator admits exactly one sorted permutation (so Rust's sort algorithm cannot matter) and --sortr is its exact reverse; sorting permutes. Tree level (Props/C16Order): the sibling comparator cmp_by_attr is antisymmetric on all nodes and, on every well-formed sibling set (decidable predicate Prog.sibOk: name-homogeneous, equal locations only among nodes that all have or all lack an entry address, one address = one key tuple), a lawful total preorder for each of the three attributes (comparator_lawful: antisymmetric, transitive, Equal is a congruence - assembled from natural_cmp, the constants' own order, the derived Ord of EntryLocation and the address tie-break by lexicographic-combination lemmas); hence the model's sort_by_attr returns every sibling level in ascending (descending under --sortr) comparator order (siblings_ascending / _descending), a permutation of its input, and --sortr is exactly the reverse of --sort when no two siblings compare Equal (sortr_exact_reverse). The registry and macro lab drivers evaluate sibOk on every level of every tree they build (branch tag '-nosibok' otherwise: only seen under the F7 name clash). Tied to the code by the `sort` lab: pairs/triples through the real natural_cmp (laws re-evaluated on the implementation's own answers), comparator and sort_by over argument-name lists (ints, negatives, floats, text, mixed) x 3 attributes x 2 directions against the unique model order.",
     level_note="Trusted: Lean kernel; Rust's f64 FromStr (the lab passes the parsed bits; only float comparison is modelled); slice::sort_by returns a sorted permutation for a total preorder and may panic otherwise (observed: F8). Tree-level sibling order is covered by the tree lab.",
     assumptions=["f64 parsing is Rust's", "slice::sort_by contract"],
 )
